@@ -1,9 +1,9 @@
 (* LspDoc.v — model of the LSP document mirror (pkg/lsp/documents.go), branch by branch.
    Text is a list of bytes (N < 256) exactly as a Go string; LSP positions are Go ints (Z, may be negative).
-     splitLines            -> split_lines
+     lineTerminatorLen / splitLines -> the LF, CRLF, CR scan of split_walk (split_lines)
      range over a string   -> rune_len (width of utf8.DecodeRuneInString, 1 for an invalid byte)
      utf16ColumnToByteOffset -> col_walk
-     positionToOffset      -> pos_to_off
+     offsetOfPosition      -> off_walk / pos_off   (scans the content itself: terminators are 1 or 2 bytes)
      applyChange           -> apply_change     (slice expressions are partial: Panic)
      DocumentManager.Open/Update/Close/GetContent -> dm_open/dm_update/dm_close/dm_content
    Go int overflow is not modelled: offsets are bounded by the document length (< 2^63). *)
@@ -21,16 +21,30 @@ Definition is_val {A} (o : outcome A) : bool := match o with Val _ => true | Pan
 
 Local Open Scope N_scope.
 
-(* strings.Split(content, "\n"); splitLines("") = [""] is the same list *)
-Fixpoint split_lines (s : list N) : list (list N) :=
+(* a line terminator is LF, CR LF or CR (lineTerminatorLen: 1, 2, 1) *)
+Definition is_eol (b : N) : bool := (b =? 10) || (b =? 13).
+
+(* splitLines(content): the lines of content without their terminators.  [after_cr] = the previous byte
+   was a CR that ended a line, so an LF here is the second byte of that terminator (Go: i += 2). *)
+Fixpoint split_walk (s : list N) (after_cr : bool) : list (list N) :=
   match s with
   | [] => [[]]
   | c :: t =>
-      if c =? 10 then [] :: split_lines t
-      else match split_lines t with
+      if after_cr && (c =? 10) then split_walk t false
+      else if c =? 10 then [] :: split_walk t false
+      else if c =? 13 then [] :: split_walk t true
+      else match split_walk t false with
            | l :: ls => (c :: l) :: ls
            | [] => [[c]]
            end
+  end.
+Definition split_lines (s : list N) : list (list N) := split_walk s false.
+
+(* content[i:end]: the bytes up to the next terminator *)
+Fixpoint first_line (s : list N) : list N :=
+  match s with
+  | [] => []
+  | c :: t => if is_eol c then [] else c :: first_line t
   end.
 
 (* continuation byte 0x80..0xBF *)
@@ -90,49 +104,40 @@ Fixpoint col_walk (s : list N) (skip : nat) (units col : Z) (i : nat) : nat :=
 
 Definition utf16_col_to_off (line : list N) (col : Z) : nat := col_walk line 0 0%Z col 0.
 
-(* the for loop of positionToOffset: sum of len(lines[i])+1 for i < min(k, len(lines)) *)
-Fixpoint prefix_len (k : nat) (lines : list (list N)) : Z :=
-  match k, lines with
-  | S k', l :: ls => (Z.of_nat (length l) + 1 + prefix_len k' ls)%Z
-  | _, _ => 0%Z
+(* offsetOfPosition(content, pos) for pos.Line >= 0: [rem] = lines still to skip (Go: pos.Line - line),
+   [i] = bytes consumed.  Running out of content while lines remain is "past the last line":
+   len(content). *)
+Fixpoint off_walk (s : list N) (rem : Z) (after_cr : bool) (char : Z) (i : nat) : nat :=
+  match s with
+  | [] => i
+  | c :: t =>
+      if after_cr && (c =? 10) then off_walk t rem false char (S i)
+      else if (rem <=? 0)%Z then (i + utf16_col_to_off (first_line s) char)%nat
+      else if c =? 10 then off_walk t (rem - 1)%Z false char (S i)
+      else if c =? 13 then off_walk t (rem - 1)%Z true char (S i)
+      else off_walk t rem false char (S i)
   end.
 
-(* iterations of the for loop of positionToOffset: min(pos.Line, len(lines)) (never a huge unary number) *)
-Definition loop_count (line : Z) (lines : list (list N)) : nat :=
-  Z.to_nat (Z.min line (Z.of_nat (length lines))).
-
-(* positionToOffset(lines, pos) *)
-Definition pos_to_off (lines : list (list N)) (line char : Z) : outcome Z :=
-  if (line <? 0)%Z then Val 0%Z
-  else
-    let off := prefix_len (loop_count line lines) lines in
-    if (Z.of_nat (length lines) <=? line)%Z then
-      Val (if (off >? 0)%Z then (off - 1)%Z else off)
-    else
-      match nth_error lines (Z.to_nat line) with
-      | Some l => Val (off + Z.of_nat (utf16_col_to_off l char))%Z
-      | None => Panic                                  (* lines[pos.Line] out of range *)
-      end.
+Definition pos_off (content : list N) (line char : Z) : Z :=
+  if (line <? 0)%Z then 0%Z else Z.of_nat (off_walk content line false char 0).
 
 Record range := Range { r_sl : Z; r_sc : Z; r_el : Z; r_ec : Z }.
 
-(* applyChange(content, lines, change) with change.Range != nil *)
+(* applyChange(content, lines, change) with change.Range != nil; the cached lines are not consulted *)
 Definition apply_change (content : list N) (lines : list (list N)) (r : range) (text : list N)
   : outcome (list N) :=
-  match pos_to_off lines (r_sl r) (r_sc r), pos_to_off lines (r_el r) (r_ec r) with
-  | Val s0, Val e0 =>
-      let len := Z.of_nat (length content) in
-      let s := if (s0 >? len)%Z then len else s0 in
-      let e := if (e0 <? s)%Z then s else e0 in
-      if (s <? 0)%Z || (len <? s)%Z then Panic           (* content[:startOffset] *)
-      else
-        let head := firstn (Z.to_nat s) content in
-        if (e <? len)%Z then
-          if (e <? 0)%Z then Panic                        (* content[endOffset:] *)
-          else Val (head ++ text ++ skipn (Z.to_nat e) content)
-        else Val (head ++ text)
-  | _, _ => Panic
-  end.
+  let s0 := pos_off content (r_sl r) (r_sc r) in
+  let e0 := pos_off content (r_el r) (r_ec r) in
+  let len := Z.of_nat (length content) in
+  let s := if (s0 >? len)%Z then len else s0 in
+  let e := if (e0 <? s)%Z then s else e0 in
+  if (s <? 0)%Z || (len <? s)%Z then Panic           (* content[:startOffset] *)
+  else
+    let head := firstn (Z.to_nat s) content in
+    if (e <? len)%Z then
+      if (e <? 0)%Z then Panic                        (* content[endOffset:] *)
+      else Val (head ++ text ++ skipn (Z.to_nat e) content)
+    else Val (head ++ text).
 
 (* TextDocumentContentChangeEvent *)
 Inductive change :=
